@@ -12,6 +12,8 @@ import (
 	"fmt"
 	"os"
 	"path/filepath"
+	"runtime/debug"
+	"runtime/pprof"
 	"sort"
 	"strconv"
 	"strings"
@@ -278,13 +280,21 @@ func matchFinding(fs []Finding, prop string, v exec.Violation) *Finding {
 // ---- main
 
 func main() {
+	debug.SetGCPercent(400) // the interpreter allocates short-lived values; memory is plentiful
+	if pf := os.Getenv("VERIF_PROF"); pf != "" {
+		f, _ := os.Create(pf)
+		pprof.StartCPUProfile(f)
+		defer pprof.StopCPUProfile()
+	}
 	if len(os.Args) < 2 {
 		fmt.Println("usage: verifchk check <property> [--tier quick|thorough] | replay <file> | list")
 		os.Exit(2)
 	}
 	switch os.Args[1] {
 	case "check":
-		os.Exit(cmdCheck(os.Args[2:]))
+		rc := cmdCheck(os.Args[2:])
+		pprof.StopCPUProfile()
+		os.Exit(rc)
 	case "replay":
 		os.Exit(cmdReplay(os.Args[2:]))
 	case "list":
